@@ -216,14 +216,19 @@ PROPS['C03'] = floor_prop(
     ('d ',), 'implementation traces are produced with the deep-copy probe at every clock advance; non-trivial = a scenario '
              'in which some device waited for downstream space', runner='ProbeRunner',
     # floorl / sys: devices constructed mid-run behind a blocked upstream ("connection added")
-    families=[('floorc', 80, 1500), ('floor', 50, 1000), ('floors', 120, 2500), ('floorq', 40, 800), ('floorl', 40, 800), ('sys', 40, 800), ('floorn', 0, 0)],
+    # floork: cycle times set / offset while a part is held (a slot freed at the end of a cycle whose cycle time reads 0)
+    families=[('floorc', 80, 1500), ('floor', 50, 1000), ('floors', 120, 2500), ('floorq', 40, 800), ('floorl', 40, 800), ('sys', 40, 800), ('floork', 40, 800), ('floorn', 0, 0)],
     nontrivial=lambda st, s: any(l.startswith('d ') and ' wds=1 ' in l for l in st))
 PROPS['C04'] = floor_prop(
     'C04', ['SimProc.Props.C04', 'SimProc.Props.C04W'], ['SimProc/Props/C04.lean', 'SimProc/Props/C04W.lean'],
     {'rec': _c.only(('received_part',)), 'ran': None},
-    ('rec received_part',), 'family serial: source -> handlers/processors/buffers -> sink with constant parameters; '
+    ('rec received_part',), 'family serial: source -> handlers/processors/buffers -> sink with constant parameters; horizons of length 0 '
+                            'and horizons split over several run calls (some of length 0); family serialq: the same lines with a '
+                            'small source budget that is topped up during and between runs (outside the constant-budget theorem: '
+                            'correspondence and the reference recurrence with permission times only); '
                             'non-trivial = at least one part reached a station',
-    families=[('serial', 300, 6000)])
+    # serialq: the same lines with a small source budget that is topped up during the run and between runs
+    families=[('serial', 300, 6000), ('serialq', 100, 2000)])
 PROPS['C05'] = floor_prop(
     'C05', ['SimProc.Props.C05', 'SimProc.Props.C05W'], ['SimProc/Props/C05.lean', 'SimProc/Props/C05W.lean'],
     {'d': _c.only(('',), None), 'rec': _c.only(('level',))},
@@ -263,7 +268,8 @@ PROPS['C16'] = floor_prop(
     {'d': _c.fields('val', 'vh', 'cost', 'rval'), 'm': _c.fields('val', 'vh'), 'p': _c.fields('v'),
      'rec': _c.only(('supplied_new_part', 'received_part'))},
     ('d ',), 'the runner also checks value bookkeeping on the live objects after every event; non-trivial = a value changed',
-    runner='ValueRunner', families=[('floor', 120, 2500), ('floors', 80, 1500), ('maint', 60, 1000)],
+    # floorv: value-changing receive callbacks on every station including the sinks themselves
+    runner='ValueRunner', families=[('floor', 120, 2500), ('floors', 80, 1500), ('maint', 60, 1000), ('floorv', 60, 1000)],
     nontrivial=lambda st, s: any(l.startswith(('d ', 'm ')) and ' vh=0 ' not in l + ' ' for l in st))
 import c16 as _c16
 PROPS['C16']['extra'] = _c16.net_value
@@ -312,7 +318,8 @@ PROPS['C06'] = floor_prop(
     {'ev': None, 'now': None, 'ran': None, 'd': _c.fields('part', 'out', 'down', 'cyc', 'off'),
      'rec': _c.only(('received_part', 'produced_part', 'device_failure', 'supplied_new_part'))},
     ('rec received_part',), 'non-trivial = a part was accepted by a device',
-    families=[('floor', 100, 2000), ('floorc', 50, 1000), ('floors', 150, 3000), ('floorq', 60, 1000)],
+    # floork: cycle times set / one-shot offsets given while a part is held and from outside before the first run
+    families=[('floor', 100, 2000), ('floorc', 50, 1000), ('floors', 150, 3000), ('floorq', 60, 1000), ('floork', 60, 1000)],
     impl_only_families=[('floorr', 80, 1500)])
 
 
